@@ -22,6 +22,17 @@ prop("C14", "topic filters and ServeMux dispatch", "exploration",
                   "reference matcher refMatch/refValidFilter written from MQTT 3.1.1 section 4.7 is itself correct"],
      exhaustive_note="the bounded (filter, topic) space is enumerated completely in both tiers; the random part is sampling")
 
+prop("C04", "inbound QoS 0/1/2 flows", "exploration",
+     "rapid-generated sequences (0..40) of broker packets PUBLISH q0 / q1 (ids, dup) / q2 (ids, dup; an in-flight id is only "
+     "re-used as a retransmission) / PUBREL (known, unknown, repeated) fed to a connected BaseClient with handler on / off / "
+     "registered half-way, generated read chunking; the observed timeline of handler entries/exits and written acks must equal "
+     "the reference automaton's. Non-trivial = the sequence releases a stored QoS2 message, retransmits a QoS2 PUBLISH or "
+     "repeats a PUBREL; distinct = FNV-64 of the case JSON.",
+     [dict(tests="^TestVerifC04_Flows$", checks_quick=6000, checks_thorough=60000, shards=12,
+           fuzz=[dict(target="FuzzVerifC04", time="90s", workers=8)])],
+     assumptions=["the broker re-uses an in-flight QoS2 packet id only to retransmit the same message (conforming broker)",
+                  "a PUBCOMP in reply to an unknown PUBREL is permitted but not required"])
+
 # ---------------------------------------------------------------------------------------------
 # texts for MANIFEST.json (tools/gen_manifest.py)
 
@@ -39,3 +50,10 @@ mtext("C14", "pure (reference matcher)",
       "matching, so within that space the result is complete; beyond it (unicode, deep topics, ServeMux lists) it is random sampling.",
       "reference matcher correct; topics restricted to the property's domain (non-empty, no wildcards, no leading '$')",
       "DESIGN.md section 4 / C14")
+
+mtext("C04", "E5 scripted peer + reference automaton",
+      "rapid property test (generated packet sequences) + native fuzzing through rapid.MakeFuzz, oracle = reference automaton timeline",
+      "Generated broker packet sequences are replayed against the real client and its timeline of hand-overs and acknowledgements "
+      "is compared event by event with a reference automaton; sampling of the sequence space, no completeness claim.",
+      "in-memory transport honours io.ReadWriteCloser; reference automaton follows the property statement",
+      "DESIGN.md section 4 / C04")
